@@ -61,3 +61,12 @@ package durablestream
 //@   ensures [C10.ds.read.err] lastresi(chunkRead, 1, Iface) != nil ==> err != nil && result1 == from && len(result0) == 0
 //@   ensures [C10.ds.read.limit] err == nil && limit > 0 ==> len(result0) <= limit
 //@   ensures [C10.ds.read.nogap] {C10,C11} err == nil && len(result0) > 0 && result1 == result.NextOffset ==> rangeindex__1 + 1 >= len(rawEvents)
+
+// ---------------------------------------------------------------- timestamps
+// With the assumed law time.roundtrip (prelude), parseTimestamp(what Append
+// sent) denotes the instant Append was given.
+//@ func parseTimestamp
+//@   props C10
+//@   ensures [C10.ds.ts.parse] s != "" && timeParseOK(RFC3339NANO(), s) ==> result == timeParse(RFC3339NANO(), s)
+//@   ensures [C10.ds.ts.zero] s == "" || !timeParseOK(RFC3339NANO(), s) ==> result == 0
+//@   ensures [C10.ds.ts.roundtrip] forall t int :: {timeFormat(t, RFC3339NANO())} s == timeFormat(t, RFC3339NANO()) && s != "" ==> sameInstant(result, t)
